@@ -15,6 +15,16 @@ CLAIMED = {
              "is replayed step by step on the real Comms object and every recorded random execution must be a "
              "behaviour of the spec. Bounded exhaustive + random, not a proof.",
         note="TLC; transport doubles written in the harness; Linux loopback UDP delivers synchronously"),
+    "C15": dict(
+        level="model_checking", design="3/C15",
+        technique="TLA+ spec SegBox.tla: TLC proves the transcribed separating-axis test equal to the definition of "
+                  "segment/box intersection on the whole lattice and validates a verdict table recorded from the real "
+                  "obstruction() against the definition; random 3-decimal cases decided by TLC with an exact slab oracle",
+        text="Exhaustive on the lattice the property names: every ordered segment of (-3..3)^3 against each chosen box "
+             "set is decided by the definition inside TLC and compared with the real code's verdict (quick: ~20 box "
+             "sets, thorough: ~170 sets plus algorithm=definition for all 3375 boxes); random float cases only where "
+             "the exact answer is robust.",
+        note="TLC integer arithmetic; binary64 exact on quarter-integers; robust-case filter uses 1e-3 >= 1e-9"),
 }
 
 NOT_YET = "check not built yet in this round (planned: see DESIGN.md section 3)"
